@@ -15,6 +15,10 @@ CHECKS = [
      "design_ref": "DESIGN.md 5/C01",
      "level_text": "Generated-input search with an independent oracle over whole programs; thousands of distinct episodes per run, shrinks to a JSON replay. Exploration: no absence claim.",
      "level_note": _PRINTER_NOTE},
+    {"id": "C02", "technique": "property-based testing (Hypothesis): path generated first, regions fitted into the free space / exclusion disabled, identity oracle on the whole output stream",
+     "design_ref": "DESIGN.md 5/C02",
+     "level_text": "Generated-input search with an identity oracle; the precondition (path clear of regions) holds by construction, not by filtering. Exploration.",
+     "level_note": "Trusted: reference printer (to know which points the path visits) and vlib/geom.py. Regions are kept 0.25 mm clear of every visited point and of the full-circle bounding box of every arc. Open findings KF-G92-XYZ-SIGN and KF-C16-RCENTRE: G92 X/Y/Z and R-form arcs are not rendered in the mode that places regions (counted as excluded_known)."},
     {"id": "C03", "technique": "property-based testing (Hypothesis): differential execution filtered vs unfiltered stream on a reference printer, Z-ordering invariant over the exit sequence",
      "design_ref": "DESIGN.md 5/C03",
      "level_text": "Generated-input search comparing the printer state reached through the filter with the state the unfiltered file produces after every move outside all regions. Exploration.",
@@ -27,6 +31,10 @@ CHECKS = [
      "design_ref": "DESIGN.md 5/C05",
      "level_text": "Generated-input search over long alternations of retract / recover / enter / exit with depth invariants I1-I3 and an exactly-once recovery check. Exploration.",
      "level_note": _PRINTER_NOTE},
+    {"id": "C14", "technique": "property-based testing (Hypothesis): programs with @-commands, independent model of the action table, reference-printer differential and state-snapshot comparison",
+     "design_ref": "DESIGN.md 5/C14",
+     "level_text": "Generated-input search over programs x action tables with an enabled/disabled reference model; checks no suppression while disabled, re-synchronisation on a disable inside an episode, decisions after re-enabling against the true position, and inertness of unmatched / streaming @-commands. Exploration.",
+     "level_note": _PRINTER_NOTE + " The action-table model uses Python's re.match like the plugin's documented semantics."},
     {"id": "C17", "technique": "property-based testing (Hypothesis) against exact rational arithmetic and probe-point soundness oracle",
      "design_ref": "DESIGN.md 5/C17",
      "level_text": "Generated search over region pairs and probe points with an exact-arithmetic oracle; finds any membership/containment error larger than a few ulp on the explored inputs, does not prove absence.",
